@@ -32,7 +32,7 @@ RULE = ("(det) random valid calls with a fixed seed in {0,5,2^31-1}, with and wi
         "probability-0 states must have count 0), violation iff p < 1e-9; (hook) all of the above plus 300-spin random "
         "graphs and degree-6 PUSOs run under the H2 hook. Non-trivial = model with >= 2 variables and >= 2 terms; "
         "distinct = digest of the configuration"
-        ' Also: schedules [inf]*a + [0]*k (a up to 1000) with an ignored anneal_duration, labelled models with user mappings (energy clauses), models scaled by 2^-60, seeds with bit 31 set (refused or reproducible across a one-second pause), a ferromagnetic-pair ratchet run for 1000-20000 sweeps at dE/T in {9.7, 11, 13} against the exact chain, initial states spelled as a list or tuple indexed by label, exactness verdict (H2 maximal deviation == 0) on exactly summable workloads.')
+        ' Also: schedules [inf]*a + [0]*k (a up to 1000) with an ignored anneal_duration, labelled models with user mappings (energy clauses), models scaled by 2^-60, seeds with bit 31 set (refused or reproducible across a one-second pause), a ferromagnetic-pair ratchet run for 1000-20000 sweeps at dE/T in {9.7, 11, 13} against the exact chain, initial states spelled as a list or tuple indexed by label, zeros spelled 0, 0.0 or -0.0, labelled objects annealed once before the user mapping is set, exactness verdict (H2 maximal deviation == 0) on exactly summable workloads.')
 TIERS = {"quick": {"shards": 8, "cases": 200}, "thorough": {"shards": 16, "cases": 4000}}
 FLOOR_BASE = {"quick": 160, "thorough": 4000}    # case counts the floors below were calibrated for; the launcher scales them
 FLOOR_FIXED = {"hook:big-workloads"}
@@ -44,7 +44,7 @@ def FLOORS(tier):
     return {"det:in-process": 400 if q else 15000, "det:fresh-process": 400 if q else 15000,
             "det:without-initial_state": 150, "T0:reference-sweeps": 100 if q else 4000, "T0:flips-seen": 150, "T0:schedule-container:generator": 20,
             "T0:labelled-with-user-mapping": 60, "T0:schedule-container:linear-with-zero-range": 15, "T0:tiny-scale": 40, "chi2:rare-uphill-ratchet": 8, "T0:infinite-temperature-prefix": 60, "T0:schedule-longer-than-default-duration": 15,
-            "T0:anneal_duration-given-with-explicit-schedule": 40, "T0:initial_state-as-sequence": 30,
+            "T0:anneal_duration-given-with-explicit-schedule": 40, "T0:initial_state-as-sequence": 30, "T0:annealed-before-the-user-mapping": 20, "T0:negative-zero-in-schedule": 60,
             "chi2:tests": 40 if q else 1500, "chi2:random-order": 12, "chi2:in-order": 12, "chi2:cubic": 8,
             "chi2:boolean-front-end": 8, "hook-dE-checks": 10 ** 6 if q else 5 * 10 ** 7, "hook-exactness-verdicts": 300, "hook:big-workloads": 8}
 
@@ -252,6 +252,10 @@ def case_t0(ctx, rng, idx):
         M = getattr(L, tn)()
         for k_, v_ in items:
             M[tuple(name[i] for i in k_)] += v_
+        if rng.random() < 0.5:
+            # the object was annealed before under its automatic enumeration (nothing of that may be remembered)
+            ctx.call(fn, getattr(L.sim, fn), M, _w={"note": "earlier anneal before the user mapping"}, num_anneals=1, anneal_duration=2, seed=1)
+            ctx.cat("T0:annealed-before-the-user-mapping")
         pairs = [(name[i], i) for i in range(n)]
         rng.shuffle(pairs)
         if rng.random() < 0.5:
@@ -270,7 +274,9 @@ def case_t0(ctx, rng, idx):
     # a prefix of infinite-temperature sweeps is deterministic too: every proposed flip is accepted
     in_order = rng.random() < 0.7
     hot = rng.choice([0, 0, 0, 1, 2, 3, 1000]) if in_order else 0       # (a random-order sweep may visit a spin twice)
-    sched = [INFTY] * hot + [0] * k
+    sched = [INFTY] * hot + [rng.choice([0, 0, 0.0, -0.0]) for _ in range(k)]      # zero is zero, however it is spelled
+    if any(str(t) == "-0.0" for t in sched):
+        ctx.cat("T0:negative-zero-in-schedule")
     kw = dict(schedule=list(sched), initial_state={name[i]: v for i, v in init.items()}, in_order=in_order, num_anneals=rng.choice([1, 3]),
               seed=rng.choice([None, 3]))
     if matrix_case and rng.random() < 0.35:
